@@ -4,6 +4,7 @@ import (
 	"fmt"
 	"go/ast"
 	"go/types"
+	"golang.org/x/tools/go/ssa"
 	"strings"
 
 	"gverif/internal/load"
@@ -17,6 +18,181 @@ type overrides struct {
 }
 
 func buildRunnerOverrides(e *Env) *overrides {
+	if o := buildRunnerOverridesSSA(e); o != nil {
+		return o
+	}
+	return buildRunnerOverridesAST(e)
+}
+
+// buildRunnerOverridesSSA reads, on the SSA form of buildRunner, which payload field every overridden
+// container parameter / service receives. Local closures and helpers of the package that wrap the
+// OverrideParam / NewService+SetValue idioms are expanded at their call sites (parameters bound to the
+// actual arguments), so the result does not depend on how the calls are factored.
+func buildRunnerOverridesSSA(e *Env) *overrides {
+	fn := e.P.Func("internal/cmd", "buildRunner")
+	if fn == nil {
+		return nil
+	}
+	o := &overrides{params: map[string]string{}, services: map[string]string{}}
+	type envT map[*ssa.Parameter]ssa.Value
+	var resolve func(v ssa.Value, env envT, d int) ssa.Value
+	resolve = func(v ssa.Value, env envT, d int) ssa.Value {
+		for i := 0; i < 8 && v != nil; i++ {
+			switch x := v.(type) {
+			case *ssa.Parameter:
+				if a, ok := env[x]; ok {
+					v = a
+					continue
+				}
+				return v
+			case *ssa.MakeInterface:
+				v = x.X
+			case *ssa.ChangeInterface:
+				v = x.X
+			case *ssa.ChangeType:
+				v = x.X
+			default:
+				return v
+			}
+		}
+		return v
+	}
+	payloadField := func(v ssa.Value) string {
+		switch x := v.(type) {
+		case *ssa.UnOp:
+			if fa, ok := x.X.(*ssa.FieldAddr); ok && strings.HasSuffix(strings.TrimPrefix(fa.X.Type().String(), "*"), "runnerPayload") {
+				return fieldName(fa)
+			}
+		case *ssa.Field:
+			if strings.HasSuffix(x.X.Type().String(), "runnerPayload") {
+				return fieldNameT(x.X.Type(), x.Field)
+			}
+		}
+		return ""
+	}
+	calleeOf := func(c ssa.CallInstruction) *ssa.Function {
+		if g := c.Common().StaticCallee(); g != nil {
+			return g
+		}
+		switch f := c.Common().Value.(type) {
+		case *ssa.MakeClosure:
+			g, _ := f.Fn.(*ssa.Function)
+			return g
+		case *ssa.UnOp:
+			// a closure held in a local
+			if al, ok := f.X.(*ssa.Alloc); ok {
+				for _, ref := range *al.Referrers() {
+					if st, ok := ref.(*ssa.Store); ok && st.Addr == al {
+						if mc, ok := st.Val.(*ssa.MakeClosure); ok {
+							g, _ := mc.Fn.(*ssa.Function)
+							return g
+						}
+					}
+				}
+			}
+		}
+		return nil
+	}
+	// the payload field a service value holds: NewService() + SetValue(<field>), possibly inside a helper
+	var svcField func(v ssa.Value, f *ssa.Function, env envT, d int) string
+	svcField = func(v ssa.Value, f *ssa.Function, env envT, d int) string {
+		if d > 2 {
+			return ""
+		}
+		v = resolve(v, env, 0)
+		for _, c := range callsIn(f, false) {
+			if c.Common().IsInvoke() && c.Common().Method.Name() == "SetValue" && c.Common().Value == v && len(c.Common().Args) == 1 {
+				return payloadField(resolve(c.Common().Args[0], env, 0))
+			}
+			// (*Service).SetValue(&svc, x) on the local the service value is loaded from
+			if g := c.Common().StaticCallee(); g != nil && g.Name() == "SetValue" && g.Signature.Recv() != nil && len(c.Common().Args) == 2 {
+				recv := c.Common().Args[0]
+				same := recv == v
+				if ld, ok := v.(*ssa.UnOp); ok && ld.X == recv {
+					same = true
+				}
+				if same {
+					return payloadField(resolve(c.Common().Args[1], env, 0))
+				}
+			}
+		}
+		if call, ok := v.(*ssa.Call); ok {
+			if g := calleeOf(call); g != nil && g.Pkg == fn.Pkg && len(g.Blocks) > 0 {
+				env2 := envT{}
+				for i, p := range g.Params {
+					if i < len(call.Call.Args) {
+						env2[p] = resolve(call.Call.Args[i], env, 0)
+					}
+				}
+				for _, b := range g.Blocks {
+					if ret, ok := b.Instrs[len(b.Instrs)-1].(*ssa.Return); ok && len(ret.Results) == 1 {
+						if fld := svcField(ret.Results[0], g, env2, d+1); fld != "" {
+							return fld
+						}
+					}
+				}
+			}
+		}
+		return ""
+	}
+	var expand func(f *ssa.Function, env envT, d int)
+	expand = func(f *ssa.Function, env envT, d int) {
+		if d > 2 {
+			return
+		}
+		for _, c := range callsIn(f, false) {
+			m := ""
+			if c.Common().IsInvoke() {
+				m = c.Common().Method.Name()
+			} else if g := c.Common().StaticCallee(); g != nil && g.Signature.Recv() != nil {
+				m = g.Name()
+			}
+			args := c.Common().Args
+			if !c.Common().IsInvoke() && m != "" {
+				args = args[1:] // receiver
+			}
+			switch m {
+			case "OverrideParam":
+				if len(args) == 2 {
+					name, _ := constString(resolve(args[0], env, 0))
+					fld := ""
+					if dv, ok := resolve(args[1], env, 0).(*ssa.Call); ok && callName(&dv.Call) == load.RuntimeMod+"/container.NewDependencyValue" && len(dv.Call.Args) == 1 {
+						fld = payloadField(resolve(dv.Call.Args[0], env, 0))
+					}
+					if name != "" {
+						o.params[name] = fld
+					}
+				}
+				continue
+			case "OverrideService":
+				if len(args) == 2 {
+					name, _ := constString(resolve(args[0], env, 0))
+					if name != "" {
+						o.services[name] = svcField(args[1], f, env, 0)
+					}
+				}
+				continue
+			}
+			// a local closure or a helper of the package: expand at this call site
+			if g := calleeOf(c); g != nil && g != f && len(g.Blocks) > 0 && (g.Parent() != nil || g.Pkg == fn.Pkg) {
+				env2 := envT{}
+				for i, p := range g.Params {
+					if i < len(c.Common().Args) {
+						env2[p] = resolve(c.Common().Args[i], env, 0)
+					}
+				}
+				expand(g, env2, d+1)
+			}
+		}
+	}
+	expand(fn, envT{}, 0)
+	if len(o.params) == 0 {
+		return nil
+	}
+	return o
+}
+
+func buildRunnerOverridesAST(e *Env) *overrides {
 	fd, pk := e.P.Decl("internal/cmd", "buildRunner")
 	if fd == nil {
 		return nil
